@@ -10,6 +10,7 @@ import FimVerif.Proofs.Lemmas.C08Prune
 import FimVerif.Proofs.Lemmas.C08Ops
 import FimVerif.Proofs.Lemmas.C08Names
 import FimVerif.Proofs.Lemmas.C08Plan
+import FimVerif.Proofs.Lemmas.C08Rename
 /-!
 # C08 — removal and disconnection delete exactly the owned structure and nothing else
 
@@ -691,5 +692,55 @@ theorem plan_facts :
     disconnectInterfaces = [⟨.nodeExists, true⟩, ⟨.getPeers, true⟩, ⟨.getParent, true⟩, ⟨.dconn, true⟩] ∧
     discPeerCount = 1 ∧ removeNetworkService = nodeRemoveNetworkService ∧ cpDeleteParentDefault = true ∧
     pruneLoops = [(.pruneNode, false), (.pruneComp, true), (.pruneNs, true), (.pruneIface, true)] := by decide
+
+/-! ## Renames: a name denotes what carries it now
+
+Round 5.  A by-name call after `x.rename(new)` (with any lookups before it, and whoever took the freed name since) finds,
+for every name other than `new`, an element that is not `x`, that is a child now and carries the name now; with
+`remove_byName` (which holds for every `Dir`, hence for `d.rename x new`) the call then removes exactly `OwnedS` of that element.
+The histories of the correspondence (lookup, rename, re-use of the freed name, by-name removal) send the model the names as
+they are after the history. -/
+
+/-- after a rename the element is denoted by no name other than the new one: `find_*_by_name` under a parent … -/
+theorem findChild_rename_ne (g : G) (d : Dir) (x new p : Nat) (r : Rel) (c : Cls) (nm y : Nat)
+    (hne : nm ≠ new) (h : findChild g (d.rename x new) p r c nm = .ok y) : y ≠ x := by
+  unfold findChild at h
+  split at h
+  · rename_i y' hf
+    have h1 := List.find?_some hf
+    cases h
+    intro hyx
+    subst hyx
+    exact hne (nameOf_rename_self d _ new nm (by simpa using h1))
+  · cases h
+
+/-- … what it finds is a child NOW and carries the name NOW … -/
+theorem findChild_rename_spec (g : G) (d : Dir) (x new p : Nat) (r : Rel) (c : Cls) (nm y : Nat)
+    (h : findChild g (d.rename x new) p r c nm = .ok y) :
+    y ∈ g.nbrs p r c ∧ (d.rename x new).nameOf y = some nm := by
+  unfold findChild at h
+  split at h
+  · rename_i y' hf
+    cases h
+    exact ⟨List.mem_of_find?_eq_some hf, by simpa using List.find?_some hf⟩
+  · cases h
+
+/-- … and the same for `find_node_by_name` -/
+theorem findByName_rename_ne (g : G) (d : Dir) (x new : Nat) (c : Cls) (nm y : Nat)
+    (hne : nm ≠ new) (h : findByName g (d.rename x new) c nm = .ok y) : y ≠ x := by
+  unfold findByName at h
+  split at h
+  · rename_i e hf
+    cases h
+    have hm : e ∈ g.nodes.filter (fun e => e.cls == c && (d.rename x new).nameOf e.id == some nm) := by rw [hf]; simp
+    have h2 := (List.mem_filter.mp hm).2
+    simp only [Bool.and_eq_true, beq_iff_eq] at h2
+    intro hyx
+    rw [hyx] at h2
+    exact hne (nameOf_rename_self d x new nm h2.2)
+  · cases h
+
+example : findChild ⟨[⟨1, .node, 0, ""⟩, ⟨2, .comp, 0, ""⟩, ⟨3, .comp, 0, ""⟩], [⟨1, 2, .has, ""⟩, ⟨1, 3, .has, ""⟩]⟩
+    ((Dir.mk [(1, 0), (2, 7), (3, 8)] []).rename 2 9 |>.rename 3 7) 1 .has .comp 7 = .ok 3 := by rfl
 
 end FimVerif.C08
